@@ -132,7 +132,7 @@ def eMaybeRef : Option R → Enc R
 
 def eAddr : Addr → Enc R
   | .none => eBits [false, false]
-  | .ext len val => eBits [false, true] +++ eUint 9 len +++ (if len = 0 then eNil else eUint len val)
+  | .ext len val => eBits [false, true] +++ eUint 9 len +++ (if len = 0 then (if val = 0 then eNil else none) else eUint len val)
   | .std anycast wc hash =>
     eBits [true, false] +++
     (match anycast with
